@@ -343,6 +343,12 @@ def check_programs(ctx, cirq, cg, sympy, n):
         cirq.Circuit(cirq.CircuitOperation(cirq.FrozenCircuit(cirq.X(gq), cirq.measure(gq, key='m')), repetitions=2, repetition_ids=['a', 'b'], use_repetition_ids=True)),
         cirq.Circuit(cirq.CircuitOperation(cirq.FrozenCircuit(cirq.X(gq), cirq.measure(gq, key='m')), repetitions=2, use_repetition_ids=False)),
         cirq.Circuit(cirq.depolarize(0.0).on(gq)),
+        # conditions and sub-circuit resolvers in every form the serializer accepts
+        cirq.Circuit(cirq.measure(gq, key='a'), cirq.X(gq).with_classical_controls(sympy.Symbol('a'))),
+        cirq.Circuit(cirq.measure(gq, key='a'), cirq.measure(cirq.GridQubit(0, 1), key='b'), cirq.X(gq).with_classical_controls(sympy.Symbol('a') > sympy.Symbol('b'))),
+        cirq.Circuit(cirq.CircuitOperation(cirq.FrozenCircuit(cirq.X(gq) ** sympy.Symbol('a')), param_resolver={sympy.Symbol('a'): 2 * sympy.Symbol('b')})),
+        cirq.Circuit(cirq.CircuitOperation(cirq.FrozenCircuit(cirq.X(gq) ** sympy.Symbol('a')), param_resolver={sympy.Symbol('a'): sympy.Symbol('b') + 0.5})),
+        cirq.Circuit(cirq.CircuitOperation(cirq.FrozenCircuit(cirq.X(gq) ** sympy.Symbol('a')), param_resolver={'a': 0.25})),
         cirq.Circuit(cirq.X(gq), cirq.CircuitOperation(cirq.FrozenCircuit(cirq.X(gq) ** 0.5, cirq.Y(gq)), repetitions=0)),
         cirq.Circuit(cg.InternalGate(gate_name='g', gate_module='m', num_qubits=1, t=(1, 2, 3), u=(0.5, 1.5), names=('a', 'b'), mixed=(1, 'a')).on(gq)),
         cirq.Circuit(cirq.measure(gq, cirq.GridQubit(0, 1), key='m'), cirq.X(gq).with_classical_controls(cirq.BitMaskKeyCondition('m', index=-1, target_value=2**24 + 1, equal_target=True, bitmask=2**24 + 1))),
